@@ -129,7 +129,8 @@ T.group("allocate_on_buffer", vc_allocate_on_buffer, [(TU, "allocate_on_buffer")
 # ------------------------------------------------------------------------------------------------ Array._to_buffer (static items)
 class IndexSeq:
     """iter_index(shape, order) under its contract: the k-th yielded index (k = 0 .. prod(shape)-1) is the index whose memory
-    position is k (mixed radix over the axes in memory order).  Assumed here; validated natively for all shapes <= 3^3 x orders."""
+    position is k (mixed radix over the axes in memory order).  Used as a callee contract here; discharged on the real iter_index by
+    group iter_index_contract (rank 1..3 x every axis order, relative to the contracts of range / np.ndindex); also validated natively."""
 
     def __init__(self, shape, order, loop):
         self.shape, self.order, self.loop = shape, order, loop
@@ -277,7 +278,7 @@ def vc_array_writer():
     return obs
 
 
-T.group("array_writer", vc_array_writer, [(ARR, "Array._to_buffer")], ["C03", "C05", "C01"])
+T.group("array_writer", vc_array_writer, [(ARR, "Array._to_buffer")], ["C03", "C05", "C01", "C06"])
 
 
 # ------------------------------------------------------------------------------------------------ setters (C10, C03)
@@ -996,3 +997,108 @@ def vc_struct_handle_equals_view():
 
 T.group("struct_handle_equals_view", vc_struct_handle_equals_view, [(T.STRUCT, "Struct.__init__"), (T.STRUCT, "Struct._from_buffer"),
                                                                    (T.STRUCT, "MetaStruct.__new__.<locals>._inspect_args")], ["C06"])
+
+
+# ------------------------------------------------------------------------------------------------ iter_index: the contract the array writers use
+class _AbsSeq:
+    def __init__(self, loop, tag):
+        self.loop, self.tag = loop, tag
+
+    def iterate(self, interp, st, s):
+        yield from self.loop.run(interp, st, s, self)
+
+
+def vc_iter_index():
+    """array.iter_index(shape, order), rank 1..3 x every axis order, symbolic extents: the k-th value it yields (k counted by a ghost
+    counter over the real loops, which are cut at the invariant "k values yielded so far") is the index whose memory position is k
+    -- mem_pos as the documented layout defines it --, lies inside the shape, has the array's rank (a bare integer for rank 1), and
+    when the generator is exhausted exactly prod(shape) values were yielded.  This is the contract under which the array writer
+    groups iterate (IndexSeq).  Assumed contracts on dependencies: range(n) yields 0..n-1 in order; np.ndindex(*dims) yields, as its
+    k-th element, the digits of k in the mixed radix `dims` (C order), for k = 0 .. prod(dims)-1."""
+    obs = []
+    its = []
+    con = T._contract(ARR, "iter_index", [])
+    for rank in (1, 2, 3):
+        for order in T.perms(rank):
+            lab = f"rank{rank}:order{''.join(map(str, order))}"
+            it = T.new_interp()
+            its.append(it)
+            st0 = State()
+            shape = tuple(fresh_int(f"n{k}") for k in range(rank))
+            total = T.prod(list(shape))
+            pre = [s >= 0 for s in shape]
+            box = {}
+
+            def on_yield(st, v, node, shape=shape, order=order, lab=lab, rank=rank, it=it):
+                k = st.ghost["__k"]
+                idx = v if isinstance(v, tuple) else (v,)
+                ob = lambda c, g: it.oblige(st, "yield", f"{c}[{lab}]", g if not isinstance(g, bool) else z3.BoolVal(g), getattr(node, "lineno", None))
+                ob("index_has_the_rank_of_the_shape", (len(idx) == rank) and (isinstance(v, tuple) == (rank > 1)))
+                if len(idx) == rank:
+                    ob("index_inside_shape", z3.And(*[z3.And(0 <= XB.to_z3(i_), XB.to_z3(i_) < s_) for i_, s_ in zip(idx, shape)]))
+                    ob("kth_yielded_index_is_at_memory_position_k", mem_pos([XB.to_z3(i_) for i_ in idx], list(shape), list(order)) == k)
+                st.ghost["__k"] = k + 1
+            it.yield_hook = on_yield
+
+            def make_loop(kind, dims_box):
+                # one cut for both loop forms of the function: `for ii in range(n)` and `for ii in np.ndindex(*dims)`
+                def init(interp, st, k_, node):
+                    interp.oblige(st, f"inv{k_}.init", f"nothing_yielded_before_the_loop[{lab}]", st.ghost["__k"] == 0, node.lineno)
+
+                def head(interp, st):
+                    return {}
+
+                def alts():
+                    def mk(st):
+                        dims = dims_box["dims"]
+                        k = fresh_int("k")
+                        st.assume(z3.And(0 <= k, k < T.prod(list(dims))))
+                        st.ghost["__k"] = k  # invariant: k values were yielded before the k-th element is taken
+                        if kind == "range":
+                            return k
+                        d = tuple(fresh_int(f"d{m}") for m in range(len(dims)))
+                        for m in range(len(dims)):
+                            st.assume(z3.And(0 <= d[m], d[m] < dims[m]))
+                        st.assume(sum((d[m] * T.prod(list(dims[m + 1:])) for m in range(len(dims))), z3.IntVal(0)) == k)  # AX-ndindex
+                        box["elem_k"] = k
+                        return d
+                    yield kind, mk
+
+                def preserve(interp, st, g, label, elem, k_, node):
+                    k0 = elem if kind == "range" else box["elem_k"]
+                    interp.oblige(st, f"inv{k_}.preserve", f"one_value_yielded_per_element[{lab}]", st.ghost["__k"] == XB.to_z3(k0) + 1, node.lineno)
+                return LoopSpec(init, head, alts, preserve)
+
+            dims_box = {}
+
+            def ov_range(i, st, a, kw, nd, dims_box=dims_box, make_loop=make_loop):
+                if len(a) != 1:
+                    raise Unsupported("range with more than one argument")
+                dims_box["dims"] = (XB.to_z3(a[0]),)
+                return _AbsSeq(make_loop("range", dims_box), "range")
+
+            def bi_ndindex(st, f, args, kw, node, dims_box=dims_box, make_loop=make_loop):
+                dims_box["dims"] = tuple(XB.to_z3(x) for x in args)
+                return _AbsSeq(make_loop("ndindex", dims_box), "ndindex")
+            it.bi_np_ndindex = bi_ndindex
+            it.extern_names = {}
+            if rank == 1:
+                it.extern_names["range"] = XB._M(ov_range)
+            try:
+                st0.ghost["__k"] = z3.IntVal(0)
+                for st, out in it.exec_function(con, {"shape": tuple(shape), "order": PList(list(order))}, pre=pre, ghost={"__k": z3.IntVal(0)}):
+                    if out is not None and out[0] == "raise":
+                        it.oblige(st, "raises", f"never[{lab}]", False, out[2])
+                        continue
+                    # the state after the loop is the loop head's: the cut yields nothing itself; exhaustion = every element taken once,
+                    # so prod(dims) values were yielded, and dims is a permutation of the shape
+                    dims = dims_box.get("dims")
+                    it.oblige(st, "post", f"as_many_values_as_items[{lab}]", z3.BoolVal(dims is not None) if dims is None else T.prod(list(dims)) == total)
+            except HARNESS_ERRORS as e:
+                vc_iter_index.undecided.append((lab, str(e)[:200]))
+            obs += it.obligations
+    vc_iter_index.interps = its
+    return obs
+
+
+T.group("iter_index_contract", vc_iter_index, [(ARR, "iter_index")], ["C03", "C05", "C01", "C06"])
